@@ -244,7 +244,7 @@ PROPS = {
 }
 
 PROPS["C19"] = dict(
-    gens=[("codec", gen.gen_C19, 1.0), ("edge-values", gen.gen_C19_edges, 0.7)], quick=6, thorough=120, uses_gen=True,
+    gens=[("codec", gen.gen_C19, 1.0), ("edge-values", gen.gen_C19_edges, 0.7), ("forest-entry", gen.gen_C19_forest, 0.7)], quick=8, thorough=120, uses_gen=True,
     rule="one script = ~2500 codec queries: boundary integers, all 512 sign/exponent classes with mantissa "
          "corner patterns, denormals, infinities, NaNs, random 32-bit patterns; distinct_nontrivial counts "
          "distinct (kind,input) queries whose handle is not 0",
